@@ -447,7 +447,9 @@ Pick == /\ pc = "pick"
         /\ \E r \in den.recs :
              /\ pc' = (IF r.v = RejVec THEN "rejected" ELSE "done")
              /\ val' = r.v /\ asg' = r.a /\ drawn' = r.d
-        /\ UNCHANGED <<q, den>>
+        \* the evaluations themselves are not carried further (a state would cost |all| x its size)
+        /\ den' = [recs |-> {}, all |-> {}, ok |-> den.ok, why |-> den.why, sup |-> den.sup]
+        /\ UNCHANGED q
 Draw == /\ pc = "draw" /\ Ready(q, val, drawn) # {}
         /\ LET p == SetMin(Ready(q, val, drawn)) IN
              /\ Supp(q, p, val) # {}
@@ -472,7 +474,7 @@ RewriteSound == pc = "rule" => (RuleCond(Rules[q], asg) => RuleLhs(Rules[q], asg
 
 Good == pc = "done" /\ den.ok
 \* the machine and the denotation agree
-DoneInDenotation == (pc = "done" => val \in den.all) /\ (pc = "rejected" => RejVec \in den.all)
+DoneInDenotation == UseMachine => (pc = "done" => val \in den.all) /\ (pc = "rejected" => RejVec \in den.all)
 \* a printed evaluation is reproduced by evaluating its recorded draws again (checked on object
 \* cases and in machine mode only: it costs a full evaluation)
 Reproducible == (Good /\ (UseMachine \/ Cases[q].np > 0)) => Eval(q, asg, drawn) = val
